@@ -229,6 +229,42 @@ Proof.
   intros n. apply (H (S (bound - rank n))). lia.
 Qed.
 
+(** Minimal elements: in an acyclic graph every non-empty decidable set of nodes has a member none of
+    whose direct predecessors is in the set (e.g. "the first unexecuted node in a topological order"). *)
+Theorem acyclic_minimal g (S : nat -> Prop) :
+  acyclic g -> (forall x, {S x} + {~ S x}) ->
+  forall n, S n -> exists m, S m /\ (m = n \/ reach g m n) /\ forall p, edge g p m -> ~ S p.
+Proof.
+  intros Hac Sdec n. pattern n. apply (acyclic_wf_induction g); [assumption|].
+  clear n. intros n IH Hn.
+  (* is some direct predecessor in S? *)
+  assert (Hdec : (exists p, In p (preds g n) /\ S p) \/ (forall p, In p (preds g n) -> ~ S p)).
+  { induction (preds g n) as [|a l IHl].
+    - right. intros p [].
+    - destruct (Sdec a) as [Ha | Ha].
+      + left. exists a. split; [now left | assumption].
+      + destruct IHl as [[p [Hp HS]] | Hno].
+        * left. exists p. split; [now right | assumption].
+        * right. intros p [<- | Hp]; [assumption | now apply Hno]. }
+  destruct Hdec as [[p [Hp HS]] | Hno].
+  - apply preds_In in Hp. destruct (IH p Hp HS) as [m [Hm [Hr Hmin]]].
+    exists m. split; [assumption|]. split; [|assumption]. right.
+    destruct Hr as [-> | Hr]; [now apply reach1 | eapply reachS; eauto].
+  - exists n. split; [assumption|]. split; [now left|].
+    intros p Hp. apply Hno. now apply preds_In.
+Qed.
+
+(** a non-empty acyclic graph has a node without predecessors (the engine's initial queue is not empty) *)
+Corollary acyclic_has_source g n :
+  graph_wf g -> acyclic g -> In n (nodes g) -> exists s, In s (nodes g) /\ is_source g s = true.
+Proof.
+  intros Hwf Hac Hn.
+  destruct (acyclic_minimal g (fun x => In x (nodes g)) Hac (fun x => in_dec Nat.eq_dec x (nodes g)) n Hn)
+    as [m [Hm [_ Hmin]]].
+  exists m. split; [assumption|]. apply is_source_spec. intros p Hp.
+  apply (Hmin p Hp). destruct Hwf as [_ Hwf]. now apply (Hwf p m).
+Qed.
+
 (** a non-empty set of nodes closed under "has a predecessor in the set" contradicts acyclicity *)
 Lemma acyclic_no_pred_closed_set g (S : nat -> Prop) :
   acyclic g -> (forall n, S n -> exists p, edge g p n /\ S p) -> forall n, ~ S n.
@@ -862,6 +898,20 @@ Qed.
 
 Example g_cyclic_witness : exists n, reach g_cyclic n n.
 Proof. apply (kahn_none_cycle_witness _ g_cyclic_wf). vm_compute. reflexivity. Qed.
+
+Example diamond_has_source : exists s, In s (nodes g_diamond) /\ is_source g_diamond s = true.
+Proof. apply (acyclic_has_source g_diamond 3 g_diamond_wf g_diamond_acyclic). cbn. tauto. Qed.
+
+(** acyclic_wf_induction at work: in the diamond every node other than the sources 0 and 4 descends from 0 *)
+Example diamond_induction : forall n, In n (nodes g_diamond) -> n = 0 \/ n = 4 \/ reach g_diamond 0 n.
+Proof.
+  intros n. pattern n. apply (acyclic_wf_induction g_diamond); [exact g_diamond_acyclic|]. clear n.
+  intros n IH Hn. cbn in Hn.
+  destruct Hn as [<- | [<- | [<- | [<- | [<- | []]]]]]; auto; right; right.
+  - apply reach1. unfold edge. cbn. tauto.
+  - apply reach1. unfold edge. cbn. tauto.
+  - apply reach1. unfold edge. cbn. tauto.
+Qed.
 
 Example ancestors_diamond : all_ancestors g_diamond [2; 4] = [0; 2; 4].
 Proof. vm_compute. reflexivity. Qed.
